@@ -11,9 +11,10 @@ PROPERTY = "C02"
 LEVEL = "exploration"
 SHARDS = 16
 RULE = ("ALL images over a signal-to-noise alphabet on small grids (every assignment of a letter to every pixel), "
-        "each realised through three (image, background, noise) variants and two seed thresholds; non-trivial = "
+        "each realised through three (image, background, noise) variants and two seed thresholds at flood 4; a slice of the grids "
+        "again under flood = seed in {4, 4.5, 5, 6} and (4.5, 6), (5, 6) with letters exactly on those thresholds; non-trivial = "
         "image with at least one pixel at or above the flood threshold; distinct = distinct (grid, alphabet, image)")
-ASSUMPTIONS = ["flood = 4, seeds {5, 7}; letters are exactly representable so that threshold ties are exact",
+ASSUMPTIONS = ["main sweep flood = 4, seeds {5, 7}; letters are exactly representable so that threshold ties are exact",
                "the island's pixel set is read from PixelIsland.bounding_box and PixelIsland.mask (False = member)",
                "component-origin clause is decided on a slice of rendered scenes through the full finder"]
 
